@@ -28,8 +28,12 @@
   The byte-level load (NewUtxoRecStatic with its static buffers, plain and compressed records, the abort path of
   LoadBalancesFromUtxo via FetchingBalanceTick) is in Model/BalancesLoad.lean; `.enable` below is its record-level form
   (Props.C17.load_bytes_eq_enable).
-  Not modelled: the save/load of the index to disk (disk.go), the OP_RETURN "message" decoration of GetAllUnspent,
-  UTXO_PURGE_UNSPENDABLE (false).
+    * `SaveBalances` → restart → `LoadBalances` (disk.go) as the history event `.reload`: every record comes back with its
+                          Value and its entries in the order the FILE had them — a list record in list order, a map record in
+                          Go's map iteration order (any rearrangement; the event carries it) — and the layout is re-chosen from
+                          the count alone (`int(le) >= useMapCnt`, with the UseMapCnt configured at the restart): a map that
+                          shrank below useMapCnt comes back as a list in arbitrary order. The bytes are in Model/BalancesDisk.lean.
+  Not modelled: the OP_RETURN "message" decoration of GetAllUnspent, UTXO_PURGE_UNSPENDABLE (false).
   Index panics of the Go code (mask shorter than the output list) are outside the admissible histories
   and are total here (`getD`).
 -/
@@ -245,6 +249,24 @@ def delOuts (cfg : Cfg) (H : Bytes → Nat) (key : Key) (mask : List Bool) : Lis
 def allDel (cfg : Cfg) (H : Bytes → Nat) (bal : BalMap) (r : Rec) (mask : List Bool) : BalMap :=
   delOuts cfg H r.key mask r.outs 0 bal
 
+/-! ### the record after a restart through the balances cache (disk.go: OneAllAddrBal.Save, newAddrBal) -/
+
+/-- the order in which `OneAllAddrBal.Save` writes the entries: a list record in list order; a map record in Go's map
+    iteration order — `ord` when it is a rearrangement of the entries (otherwise the model's own order) -/
+def savedOrder (ord : List Inp) (b : Bal) : List Inp :=
+  if b.isMap && ord.isPerm b.unsp then ord else b.unsp
+
+/-- `newAddrBal` on what `Save` wrote: same Value; `int(le) >= useMapCnt` → the entries inserted one by one into a fresh
+    map, otherwise a list holding them in FILE order (no sorting, no other normalisation) -/
+def relayout (useMapCnt : Nat) (ord : List Inp) (b : Bal) : Bal :=
+  let l := savedOrder ord b
+  if useMapCnt ≤ l.length then { value := b.value, unsp := mapOfList l, isMap := true }
+  else { value := b.value, unsp := l, isMap := false }
+
+/-- every record of the index through `relayout`; `ords` = the iteration order of each map record at save time -/
+def reloadBal (useMapCnt : Nat) (ords : List (AKey × List Inp)) (bal : BalMap) : BalMap :=
+  bal.map (fun p => (p.1, relayout useMapCnt ((aget p.1 ords).getD []) p.2))
+
 /-! ### node state and the UTXO change stream -/
 
 structure State where
@@ -283,6 +305,9 @@ inductive Ev where
   | enable (min useMapCnt : Nat)
   /-- wallet.Disable -/
   | disable
+  /-- wallet.SaveBalances, restart of the client (or Disable), wallet.LoadBalances at the same block with
+      CFG.AllBalances.UseMapCnt = useMapCnt; `ords`: Go's map iteration order of the map records while they were saved -/
+  | reload (useMapCnt : Nat) (ords : List (AKey × List Inp))
 deriving Repr
 
 /-- `UnspentDB.del` -/
@@ -328,6 +353,9 @@ def step (H : Bytes → Nat) (s : State) : Ev → State
       { s with cfg := cfg, bal := loadAll cfg H s.utxo [], on := true }
   | .disable =>
     if s.on then { s with bal := [], on := false } else s
+  | .reload um ords =>
+    -- SaveBalances refuses when the wallet is off (nothing is written, the restart then builds from the UTXO set = `.enable`)
+    if s.on then { s with cfg := { s.cfg with useMapCnt := um }, bal := reloadBal um ords s.bal } else s
 
 def run (H : Bytes → Nat) (s : State) (evs : List Ev) : State := evs.foldl (step H) s
 
